@@ -112,6 +112,7 @@ SPEC_M.append(("ledger.hsm2dongle_cmds.signer_heartbeat", "HSM2SignerHeartbeat",
 SPEC_M.append(("ledger.hsm2dongle_cmds.ui_heartbeat", "HSM2UIHeartbeat", ["send", "run"]))
 SPEC_M.append(("ledger.hsm2dongle", "HSM2Dongle", ["get_signer_heartbeat", "get_ui_heartbeat"]))
 SPEC_M.append(("ledger.protocol", "HSM2ProtocolLedger", ["_signer_heartbeat", "_ui_heartbeat"]))
+SPEC_M.append(("ledger.protocol", "HSM2ProtocolLedger", ["_get_blockchain_parameters"]))
 # instance attributes that __init__ sets to fixed objects of another class (command classes)
 INSTANCE_ALIAS = {
     ("HSM2SignerHeartbeat", "Offset"): ("ledger.hsm2dongle", "HSM2Dongle", "OFF"),
@@ -128,6 +129,8 @@ ATTR_CLASS = {("HSM2SignerHeartbeat", "dongle"): ("ledger.hsm2dongle", "HSM2Dong
               ("HSM1ProtocolLedger", "protocol_v2"): ("ledger.protocol", "HSM2ProtocolLedger"),
               ("HSM2ProtocolLedger", "hsm2dongle"): ("ledger.hsm2dongle", "HSM2Dongle"),
               ("HSM2ProtocolLedger", "pin"): ("ledger.pin", "FileBasedPin")}
+# fields known to hold a member of an IntEnum (set by a translated constructor from EnumClass(value))
+ENUM_FIELD = {"network": ("ledger.parameters", "_Network")}
 # methods of objects whose class the code does not name but whose method name identifies it (pure code)
 METHOD_CLASS = {"supports": ("ledger.version", "HSM2FirmwareVersion")}
 # methods that are primitives of the device monad rather than translated
@@ -1068,6 +1071,14 @@ class FuncTr:
                     fn = self.gen.method(self.cls, e.attr)
                     extra = "".join(" " + x for x in self.pass_extra(fn))
                     return "%s%s %s" % (fn, extra, self.v(self.selfname))
+            if e.attr == "name" and isinstance(e.value, ast.Attribute) and e.value.attr in ENUM_FIELD:
+                # <object>.<field>.name where the field is known to hold a member of an IntEnum of the repository
+                import enum
+                mod2, cname2 = ENUM_FIELD[e.value.attr]
+                en = getattr(module(mod2).mod, cname2)
+                need(isinstance(en, type) and issubclass(en, enum.IntEnum), "%s is not an IntEnum" % cname2, e)
+                tbl = "; ".join("((%d)%%Z, %s)" % (int(m_.value), const_val(m_.name)[len("(VStr "):-1]) for m_ in en)
+                return self.binds([e.value], lambda n: "py_enum_name [%s] %s" % (tbl, n[0]))
             if e.attr in PROP_CLASS and not (isinstance(e.value, ast.Name) and e.value.id == self.selfname):
                 mod2, cname2 = PROP_CLASS[e.attr]
                 cls2 = getattr(module(mod2).mod, cname2)
@@ -1406,6 +1417,8 @@ class FuncTr:
                 return self.binds([f.value, e.args[0]], lambda a: "%s %s %s" % (opn, a[0], a[1]))
             if f.attr == "hex" and not e.args and not e.keywords:
                 return self.binds([f.value], lambda a: "py_hex %s" % a[0])
+            if f.attr == "lower" and not e.args and not e.keywords:
+                return self.binds([f.value], lambda a: "py_lower %s" % a[0])
             if f.attr == "encode" and len(e.args) == 1 and isinstance(e.args[0], ast.Constant) \
                     and e.args[0].value == "ascii":
                 return self.binds([f.value], lambda a: "py_encode_ascii %s" % a[0])
